@@ -2,10 +2,11 @@
 from engine import cside
 from engine.checks import c_common
 
-FUNCS = ['Matrix_New', 'matrix_subscr', 'matrix_set_size',
+FUNCS = ['Matrix_New', 'matrix_subscr', 'matrix_ass_subscr',
+         'matrix_ass_subscr_noalias', 'matrix_set_size',
          'matrix_add_generic', 'matrix_sub_generic', 'matrix_mul_generic',
          'matrix_div_generic', 'matrix_rem_generic']
-KINDS = ('index-reject', 'index-accept', 'index-address', 'valid-preserved',
+KINDS = ('extern-requires', 'index-reject', 'index-accept', 'index-address', 'valid-preserved',
          'size-assigned', 'constructor-postcondition', 'typecode-preserved',
          'reject-exception', 'reject-clean', 'covered', 'shape-rule')
 
@@ -26,10 +27,13 @@ def run(report, tier, seed):
         'numerical results of + - * / ** % and of the element-wise '
         'functions, max/min/sum, printing, iteration, comparison',
         'construction from sequences / block columns beyond Matrix_New',
-        'indexing and indexed assignment with slices, lists and integer '
-        'matrices (matrix_subscr paths through create_indexlist and '
-        'matrix_ass_subscr are outside the supported subset: reported as '
-        'abandoned paths in the evidence)']
+        'indexing and indexed assignment with slices (PySlice paths are '
+        'abandoned paths, listed in the evidence) and with sparse right-hand '
+        'sides; the body of create_indexlist (its contract - every element '
+        'of the returned index list is in [-dim, dim) - is ASSUMED: proving '
+        'it needs a quantified invariant over buffer contents); values '
+        'stored by indexed assignment (only the addressed element is '
+        'decided)']
     report.assumptions += [
         'Python integers used as indices/sizes fit a C long',
         'contracts of the function tables num2PyObject/write_num/'
